@@ -299,11 +299,14 @@ def check_C15(ctx):
     ctx.cov["rule"] = ("battles as in C02 with a recording listener (grouping reports by task, snapshotting the core at every task boundary) and the real StateRecorder attached; "
                        "TLC checks per task: TaskPop (w,pc) = the spec's executed task; changed cells subset of reported write/inc/dec addresses subset of the reference may-touch set; "
                        "all addresses < M; TaskTerminate iff the task queued nothing; WarriorTerminate iff death; recorder snapshot = last-writer fold of the reference events "
-                       "(two admissible orders in the division-by-zero corner); spawn and reset reports. distinct_nontrivial = recorded tasks with at least one changed cell... counted as cycles with a death or a full queue.")
+                       "(two admissible orders in the division-by-zero corner; a third of the battles with the recorder switched to record reads as well); spawn and reset reports. distinct_nontrivial = recorded tasks with at least one changed cell... counted as cycles with a death or a full queue.")
     ctx.cov["trusted_base"] = ["harness listener grouping/snapshot code", "harness/enc.go tables", "TLC", "Json module"]
     spec_battle_model(ctx)
     shards, st = gen_battles(ctx, "battles", ["-shards", 16 if ctx.quick else 64, "-n", 1200 if ctx.quick else 30000, "-reports", "-twin=false"], "br")
     s2, st2 = gen_battles(ctx, "battles", ["-shards", 8 if ctx.quick else 32, "-n", 600 if ctx.quick else 15000, "-reports", "-hostile", "-twin=false"], "bh")
+    s3, st3 = gen_battles(ctx, "battles", ["-shards", 8 if ctx.quick else 32, "-n", 500 if ctx.quick else 10000, "-reports", "-reads", "-twin=false"], "brd")
+    ctx.notes["battles_with_recorder_recording_reads"] = st3["battles"]
+    s2 = s2 + s3
     rej = ctx.validate_shards("BattleTrace", shards + s2, mode="C15", heap="4g")
     ctx.binding_selftest("BattleTrace", shards, "C15", cfg="BattleTrace.cfg")
     ctx.cov["traces_validated_against_impl"] = st["battles"] + st2["battles"]
